@@ -23,7 +23,7 @@ ASSUMPTIONS = [
     "parameter values are non-empty (blank values are dropped by design); spaces are sent as %20, '+' as %2B",
     "LF-only separators are not 'malformed start lines': only 'no exception other than ValueError' is required",
 ]
-BOUNDS = {"quick": {"path_segments": 2, "param_bytes": "all1", "headers": 2}, "thorough": {"path_segments": 3, "param_bytes": "all1+pairs", "headers": 3}}
+BOUNDS = {"quick": {"path_segments": 3, "param_bytes": "all1+pairs", "headers": 3}, "thorough": {"path_segments": 4, "param_bytes": "all1+pairs", "headers": 4}}
 
 METHODS = (b"GET", b"POST", b"M-SEARCH", b"get")
 SEGS = (b"", b"a", b".", b"-", b"_", b"~", b"%41", b";", b"=", b":", b"@", b"a;b=c")
